@@ -35,5 +35,5 @@ func init() {
 	mk("C02", "every ordered pair of different resource kinds on four paths, different keys given the same value, two plugins removing the same key, bare args removal, systematic remove-then-set / lone-removal-between / remove-many-then-set / decoy-after-removal patterns for the five removable kinds plus seeded random conflict-free responses (disjoint or removal-prefixed writes) over create/update/stop incl. fully pre-populated update requests; non-trivial = the case has a removal, a re-set, updates or a pre-populated request; distinct = distinct (request kind, releases, re-sets, lone removals, targets, prepopulated) tuples or systematic tags", 20)
 	mk("C03", "(every rig: one plugin index in 08-09 behind one in 00-07; original env values with = and empty; original mounts in shuffled order and the order of the mounts compared, too; the generator-applied combined adjustment is also compared with the reference model's final container for env/annotations/mounts/devices) the must-succeed create-adjust half of the systematic list (remove-then-set, lone removal in between, for the five removable kinds at every distance) plus seeded random conflict-free creation cases (1-5 plugins, sets / lone removals / remove-then-set over all adjustable families); oracle: generator(S0, combined) == generator(...generator(S0, adj1)..., adjN) on canonicalised specs, plus owner's-value check of reply resources; distinct = distinct (plugins, releases, re-sets, lone removals, families touched) tuples", 20)
 	mk("C04", "(update requests carry device cgroup rules in 40% of the cases; every rig: one plugin index in 08-09 behind one in 00-07) the must-succeed create-adjust half of the systematic list plus seeded random conflict-free create and update cases; every plugin's handler arguments are compared with the reference model after the earlier plugins' responses, and a no-op sentinel plugin's view with the generator-applied combined result; non-trivial = a position > 0 with earlier adjustments; distinct = (kind, position, earlier count, removal pattern)", 10)
-	mk("C05", "the plain collision list on update paths (a must-fail case that succeeds = two owners), systematic ignored-partial-drop patterns (scalar and map/list fields) and self-repeat cases (outcome open: only one-entry-per-target and no duplicated page size asserted) plus seeded random create/update/stop cases with 0-4 update targets per plugin, repeated and own targets, ignore-failure flags, pre-populated requests; oracle: one entry per target with exactly the owners' fields, own entry last, self-update fails, dropped updates leak nothing; distinct = (kind, targets, multi-owner targets, own named/set, ignored drops, prepopulated)", 15)
+	mk("C05", "the plain collision list on update paths (a must-fail case that succeeds = two owners), systematic ignored-partial-drop patterns (scalar and map/list fields) and self-repeat cases (outcome open: only one-entry-per-target and no duplicated page size asserted) plus seeded random create/update/stop cases with 0-4 update targets per plugin, repeated and own targets, ignore-failure flags, pre-populated requests; oracle: one entry per target with exactly the owners' fields, own entry last, self-update fails, dropped updates leak nothing; 24 create/update/stop requests through an adaptation with no plugin at all (never any, and after the last one left): an update request still returns exactly the one entry of the container being updated, the others none; distinct = (kind, targets, multi-owner targets, own named/set, ignored drops, prepopulated)", 15)
 }
